@@ -158,7 +158,8 @@ def check_model(group: ModelGroupType) -> None:
                     else:
                         msg = _("{0!r} and {1!r} overlap and are in the same {2!r} group")
                         raise XMLSchemaModelError(group, msg.format(pe, e, pe.parent.model))
-                elif pe.is_univocal():
+                elif pe.is_univocal() and not any(
+                        g.max_occurs != 1 for g in current_path):
                     continue
 
             if distinguishable_paths(previous_path + [pe], current_path + [e]):
